@@ -319,6 +319,16 @@ func TestC16Sequences(t *testing.T) {
 	}
 	run.Count("exhaustive_sequences", int64(idx))
 	run.Exhaustive(true)
+	// a service that reloads the upcasters of one type over and over (register, clear that type, ...):
+	// the registry never holds more than one upcaster and every registration is accepted
+	if run.Shard == 0 {
+		var seq []op
+		for k := 0; k < 2600; k++ {
+			seq = append(seq, op{K: "reg", From: "cfg.v1", To: "cfg.v2"}, op{K: "cleartype", From: "cfg.v1"})
+		}
+		seq = append(seq, op{K: "reg", From: "cfg.v1", To: "cfg.v2"}, op{K: "reg", From: "cfg.v2", To: "cfg.v1"})
+		runSeq(run, seq, "reload")
+	}
 	// very long version chains: the back edge must still be rejected, the forward shortcut accepted
 	if run.Shard == 0 {
 		for _, n := range []int{8, 70, 300} {
@@ -448,7 +458,8 @@ func TestC16Races(t *testing.T) {
 						next := fmt.Sprintf("%s_%d", n, k)
 						o := op{K: "reg", From: prev, To: next}
 						if !apply(bus, o) {
-							panic("chain edge rejected")
+							run.Violation("upcast-registration:rejected-must-accept", fmt.Sprintf("registration %s -> %s, the %d-th edge of a plain version chain (no empty name, no nil function, source != target, the target reaches nothing), was rejected", prev, next, k+1), map[string]any{"chain_edges_before": k})
+							return
 						}
 						init.step(o)
 						prev = next
